@@ -199,11 +199,15 @@ def judge_twin(builder, tree, plan, header, extra_toolchain=True):
                 tc = (comp, std)
                 if tc == tca:
                     continue
-                tasks.append((tc, "single", header, s_src, s))
+                # the multi-header program under every configuration; the single-file one (already
+                # equal to it under `a`) under the configurations that differ from `a` in compiler
+                # *and* standard - enough to see a packaging x toolchain interaction, half the cost
+                if tc[0] != tca[0] and tc[1] != tca[1]:
+                    tasks.append((tc, "single", header, s_src, s))
                 tasks.append((tc, "multi", None, m_src, m))
         from concurrent.futures import ThreadPoolExecutor
 
-        with ThreadPoolExecutor(6) as ex:
+        with ThreadPoolExecutor(10) as ex:
             outs = list(ex.map(lambda t: builder.build(t[1], t[2], t[3], t[0]), tasks))
         for (tc, which, hdr, src, r0), o in zip(tasks, outs):
             detail["matrix"]["%s/%s" % (toolchain_id(tc), which)] = {"ok": o["ok"], "same_output": bool(o["ok"] and r0["ok"] and o["stdout"] == r0["stdout"])}
@@ -272,6 +276,10 @@ def _first_diff(a, b):
     return None
 
 
+import functools
+
+
+@functools.lru_cache(maxsize=256)
 def code_lines(data):
     """The generated header with full-line // comments and blank lines deleted: the only lines the
     clock and the version string may legitimately touch, and lines that cannot affect compilation.
